@@ -28,6 +28,7 @@ type Ev struct {
 	quiet bool
 	qvars []string // binders of enclosing spec quantifiers
 	wfSeen map[string]bool
+	allocPred string // at a call site: the predicate 'allocated by this call'
 }
 
 func (e *Ev) g() *Gen { return e.u.g }
@@ -640,6 +641,17 @@ func (e *Ev) shift(op token.Token, a, b Term, n ast.Node) Term {
 	var cnt string // count as bit-vector of width w; big says count >= w
 	var big_ string
 	switch {
+	case b.Sort == sInt && func() bool { _, ok := intLiteral(b.S); return ok }():
+		lit, _ := intLiteral(b.S)
+		if lit.Sign() < 0 {
+			e.panicIf("true", "negative shift", n)
+		}
+		if lit.IsInt64() && lit.Int64() >= int64(w) {
+			big_ = "true"
+		} else {
+			big_ = "false"
+		}
+		cnt = bvLit(lit.Uint64(), w)
 	case b.Sort == sInt:
 		e.panicIf(app("<", b.S, "0"), "negative shift", n)
 		big_ = app(">=", b.S, fmt.Sprint(w))
@@ -1442,6 +1454,7 @@ func (e *Ev) funcLit(n *ast.FuncLit) Term {
 	r := e.freshRef("clo")
 	t := e.g().P.Info.Types[n].Type
 	clo := &Closure{Lit: n, Env: e.st, Unit: e.u}
+	e.checkCaptures(n)
 	return Term{S: r, Sort: sInt, T: t, Clo: clo}
 }
 
